@@ -29,17 +29,68 @@ def rules_struct(rules):
     return tuple((sym, struct(rules[sym.split('[')[0]])) for sym in rules.org_symbols())
 
 
-def parser():
+_state: dict = {}
+
+
+def parser(shared: bool = False):
+    """A fresh parser, or the one parser object this process reuses for every text (as gram_check's interactive mode does)."""
     from data.syntax.gram_rules import gram_rules
     from data.syntax.gram_tokenizer import gram_tokenizer
     from rogw.tranp.implements.syntax.tranp.syntax import SyntaxParser
-    return SyntaxParser(gram_rules(), gram_tokenizer())
+    if not shared:
+        return SyntaxParser(gram_rules(), gram_tokenizer())
+    if 'p' not in _state:
+        _state['p'] = SyntaxParser(gram_rules(), gram_tokenizer())
+    return _state['p']
 
 
-def compile_text(text: str):
+def compile_text(text: str, shared: bool = False):
     from rogw.tranp.implements.syntax.tranp.rule import Rules
-    tree = parser().parse(text, 'entry')
+    tree = parser(shared).parse(text, 'entry')
     return tree, Rules.from_ast(tree.simplify())
+
+
+def in_meta_grammar(text: str):
+    """Membership of the text's token list in the meta-grammar by the independent reference recogniser (None: no token list)."""
+    from data.syntax.gram_rules import gram_rules
+    from mc.oracle.cfg_ref import Recognizer
+    if 'r' not in _state:
+        _state['r'] = Recognizer(gram_rules())
+    try:
+        toks = [t.string for t in parser().tokenizer.parse(text)]
+    except Exception:  # noqa
+        return None
+    return _state['r'].accepts(toks, 'entry')
+
+
+def literal_terminals(text: str) -> set:
+    """(comp, body) of every terminal literal written in a grammar text, by a plain left-to-right scan."""
+    import re
+    out = set()
+    for line in text.split('\n'):
+        line = line.split(':=', 1)[1] if ':=' in line else ''
+        for m in re.finditer(r'"(?:[^"\\]|\\.)*"|/(?:[^/\\]|\\.)+/', line):
+            lit = m.group(0)
+            body = lit[1:-1]
+            if lit[0] == '"':
+                body = {'\\t': '\t', '\\n': '\n', '\\r': '\r', '\\f': '\f'}.get(body, body)
+            out.add(('Equals' if lit[0] == '"' else 'Regexp', body))
+    return out
+
+
+def rule_terminals(rules) -> set:
+    out = set()
+
+    def walk(x):
+        if x[0] == 'P':
+            if x[1] == 'Terminal':
+                out.add((x[2], x[3]))
+        else:
+            for e in x[3]:
+                walk(e)
+    for _, st in rules_struct(rules):
+        walk(st)
+    return out
 
 
 # ------------------------------------------------------------------------------------- fixed points
@@ -103,7 +154,7 @@ def fixed_points(ctx):
 
 # ------------------------------------------------------------------------------------- generated grammars
 
-TERMINALS = ['"x"', '"\\n"', '"["', '"|"', '/a+/', '/[\\/]/', '/"/', '"("']
+TERMINALS = ['"x"', '"\\n"', '"["', '"|"', '/a+/', '/[\\/]/', '/"/', '"("', '/a\\//', '/\\//', '"/"']
 
 
 def exprs(depth: int, symbols, terms_cache={}):
@@ -172,30 +223,91 @@ def shape_class(text: str) -> str:
     return '+'.join(feats) or 'plain'
 
 
+CANARY = 'entry[1] := (t)* [t | "x"]\nt := /a\\//\n'
+CANARY_STRUCT = (
+    ('entry[1]', ('G', 'And', 'NoRepeat', (
+        ('G', 'And', 'OverZero', (('P', 'Symbol', 'NoComp', 't'),)),
+        ('G', 'And', 'OneOrEmpty', (('G', 'Or', 'NoRepeat', (('P', 'Symbol', 'NoComp', 't'), ('P', 'Terminal', 'Equals', 'x'))),)),
+    ))),
+    ('t', ('P', 'Terminal', 'Regexp', 'a\\/')),
+)
+
+
+def canary(prev: str):
+    """After a rejected text the same parser object must still compile the canary grammar to the expected rules."""
+    try:
+        _, g = compile_text(CANARY, shared=True)
+        if rules_struct(g) == CANARY_STRUCT:
+            return None
+        what = f'compiles to {rules_struct(g)!r}'
+    except Exception as e:  # noqa
+        what = f'{type(e).__name__}: {str(e)[:120]}'
+    _state.pop('p', None)
+    return ('viol', (['history-dependent', 'after-rejected-text'], f'after the rejected text {prev!r} the same parser no longer compiles {CANARY!r} correctly: {what}', {'grammar': CANARY, 'prev': prev}))
+
+
+def malformed(text: str):
+    """Every single-token deletion of a grammar text."""
+    import re
+    toks = re.findall(r'"(?:[^"\\]|\\.)*"|/(?:[^/\\]|\\.)+/|:=|\w+|\n|[^\s\w]', text)
+    for i in range(len(toks)):
+        if toks[i] == '\n':
+            continue
+        yield ' '.join(toks[:i] + toks[i + 1:]).replace(' \n ', '\n').replace(' \n', '\n')
+
+
 def worker(batch):
     from rogw.tranp.errors import Errors
     out = []
     for text in batch:
+        ref = in_meta_grammar(text)
         try:
-            _, g = compile_text(text)
-        except Errors.Syntax:
-            out.append(('skip', None))
+            _, g = compile_text(text, shared=True)
+        except Errors.Syntax as e:
+            if ref is True:
+                out.append(('viol', (['derivable-grammar-rejected', shape_class(text)], f'{text!r}: its token list is derivable from the meta-grammar (reference recogniser) but the engine rejects it: {str(e)[:120]}', {'grammar': text})))
+            else:
+                out.append(('skip', None))
+            c = canary(text)
+            if c:
+                out.append(c)
             continue
         except Exception as e:  # noqa
             out.append(('viol', (['compile-raises', type(e).__name__], f'{text!r}: {type(e).__name__}: {str(e)[:200]}', {'grammar': text})))
+            _state.pop('p', None)
+            continue
+        if ref is False:
+            out.append(('viol', (['accepted-outside-meta-grammar', shape_class(text)], f'{text!r}: its token list is not derivable from the meta-grammar (reference recogniser) but the engine accepts it', {'grammar': text})))
+            continue
+        want_t, got_t = literal_terminals(text), rule_terminals(g)
+        if want_t != got_t:
+            out.append(('viol', (['terminal-body-differs'] + sorted(x[0] for x in want_t ^ got_t)[:1], f'{text!r}: terminals written {sorted(want_t)!r}, compiled rules hold {sorted(got_t)!r}', {'grammar': text})))
             continue
         s1 = rules_struct(g)
         try:
             printed = g.pretty() + '\n'
-            _, g2 = compile_text(printed)
+            _, g2 = compile_text(printed, shared=True)
             s2 = rules_struct(g2)
         except Exception as e:  # noqa
             out.append(('viol', (['reparse-of-pretty-raises', type(e).__name__, shape_class(text)], f'{text!r}: pretty output {g.pretty()!r} cannot be compiled: {type(e).__name__}', {'grammar': text})))
+            _state.pop('p', None)
             continue
         if s1 != s2:
             out.append(('viol', (['pretty-roundtrip-differs', shape_class(text)], f'{text.splitlines()[0]!r} is printed as {printed.splitlines()[0]!r}, which compiles to different rules', {'grammar': text})))
         else:
-            out.append(('ok', len(s1)))
+            # every regexp terminal of the compiled rules must be a regular expression (the rules must be usable)
+            import re
+            bad = None
+            for comp, body in got_t:
+                if comp == 'Regexp':
+                    try:
+                        re.compile(body)
+                    except re.error as e:
+                        bad = (body, str(e))
+            if bad:
+                out.append(('viol', (['compiled-terminal-unusable'], f'{text!r}: compiled terminal {bad[0]!r} is not a regular expression: {bad[1]}', {'grammar': text})))
+            else:
+                out.append(('ok', len(s1)))
     return out
 
 
@@ -207,7 +319,27 @@ def run(ctx):
         if g not in seen:
             seen.add(g)
             gs.append(g)
-    ctx.log(f'{len(gs)} grammar texts')
+    n_well = len(gs)
+    # malformed layer: every single-token deletion of the single-rule grammars (depth <= 1 right-hand sides)
+    mal = []
+    for e in exprs(1, ['t', 'entry']):
+        for m in malformed(f'entry := {e}\nt := "y"\n'):
+            if m not in seen:
+                seen.add(m)
+                mal.append(m)
+    # interleave: a malformed text is followed by well-formed ones on the same parser object
+    k = max(1, len(gs) // max(1, len(mal)))
+    mixed = []
+    it = iter(mal)
+    for i, g in enumerate(gs):
+        if i % k == 0:
+            m = next(it, None)
+            if m is not None:
+                mixed.append(m)
+        mixed.append(g)
+    mixed += list(it)
+    gs = mixed
+    ctx.log(f'{n_well} grammar texts + {len(mal)} single-token deletions')
     res = pool.pmap(worker, pool.chunked(gs, 200), workers=ctx.workers, rotate=ctx.seed)
     ok = skipped = 0
     for r in res:
@@ -221,7 +353,7 @@ def run(ctx):
     return {
         'evaluations': len(gs) + n_fixed,
         'distinct_nontrivial': ok + n_fixed,
-        'rule': f'fixed points on data/syntax/gram.lark and py_gram.lark (rules equality and rendered rule module byte equality); every grammar text of 1-{"2" if ctx.quick else "3"} rules (+ a terminal rule) whose right-hand sides nest [ ], ( )*, ( )+, ( )?, bare ( ) to depth 2 over sequences and alternatives of symbols and terminals {TERMINALS}, unwrap markers none/[1]/[*]; non-trivial = compiled and round-tripped; texts are distinct',
+        'rule': f'fixed points on data/syntax/gram.lark and py_gram.lark (rules equality and rendered rule module byte equality); every grammar text of 1-{"2" if ctx.quick else "3"} rules (+ a terminal rule) whose right-hand sides nest [ ], ( )*, ( )+, ( )?, bare ( ) to depth 2 over sequences and alternatives of symbols and terminals {TERMINALS}, unwrap markers none/[1]/[*]; non-trivial = compiled and round-tripped; texts are distinct; every single-token deletion of the single-rule depth-1 grammars is interleaved (malformed layer); one parser object per worker process is reused for all texts, and after every rejected text it must still compile a canary grammar to hand-written expected rules; every accept/reject verdict is compared with an independent context-free reference recogniser over gram_rules() (mc/oracle/cfg_ref.py); the terminals of the compiled rules are compared with the literals scanned from the text',
         'samples': gs[:2] + gs[len(gs) // 2: len(gs) // 2 + 2] + gs[-1:],
         'rejected_by_meta_grammar': skipped,
         'exhaustive': True,
@@ -232,6 +364,11 @@ def run(ctx):
 def replay(ctx, data):
     if 'fixed_point' in data:
         fixed_points(ctx)
+        return
+    if data.get('prev') is not None:
+        for kind, payload in worker([data['prev']]):
+            if kind == 'viol':
+                ctx.violation(*payload)
         return
     for kind, payload in worker([data['grammar']]):
         if kind == 'viol':
